@@ -4,12 +4,18 @@ Decided statically: the four disciplines that make the guarantee hold in this
 code base (stale-after-callback, unlink-before-call for one-shot objects,
 unregister reaches every holder, no callback while a kernel batch is live).
 Not decided: sufficiency over all histories and kernel behaviours.
+
+Formulation (see REPORT-C01.md): callback sites are judged in the library's
+roots (exported functions, installed handlers, method slots) with helpers
+inlined, and aggregated per source location; objects, list nodes and arrays are
+identified by type ((record, field)) and by the definitions of the locals that
+name them, never by the spelling of an expression or the name of a static helper.
 """
-from ..core import (names_of, same_value, lvalue_root, AnalysisBroken, Inliner, canon, strip, strip_load, last_member, must_pass, relpath,
-                    norm_cond, walk, forward, lvalue_steps, evloc)
-from ..analyses import (is_call, holding, atoms_reading, path_to, describe, exits_of, callback_kind,
-                        stale_after_callback, loops, innermost_loop, USER_OBJECT_RECORDS, locksets, held,
-                        delta_analysis)
+from ..core import (lvalue_root, AnalysisBroken, canon, strip, last_member, relpath, norm_cond, walk, forward, lvalue_steps)
+from ..analyses import (is_call, path_to, describe, exits_of, callback_kind, stale_after_callback, USER_OBJECT_RECORDS,
+                        must_pass_from_block)
+from . import h01
+from .h01 import norm_rec
 
 ONE_SHOT = {  # callback kind -> (record, link field, extra store required before the call)
     'task': ('iv_task_', 'list', None),
@@ -41,8 +47,8 @@ HOLDERS = {
                                                    why='already removed by the reaper when the dead flag is set (C11)'),
     ('marker', 'iv_fd_', 'iv_state.handled_fd'): dict(check='marker'),
     ('marker', 'iv_wait_interest', 'iv_wait_thr_info.handled_wait_interest'): dict(check='marker'),
-    ('slot', 'iv_fd_', 'poll.fds[]'): dict(check='poll-slot', methods='poll'),
-    ('slot', 'iv_timer_', 'heap'): dict(check='heap-slot'),
+    ('slot', 'iv_fd_', 'poll.fds[]'): dict(check='poll-slot', methods='poll', free=-1),
+    ('slot', 'iv_timer_', 'heap'): dict(check='heap-slot', index=('iv_timer_', 'index'), free=-1, batch=0),
     ('kernel', 'iv_fd_', 'epoll_event.data.ptr'): dict(check='epoll-sync', methods='deferring'),
     ('pub', 'iv_inotify', 'term'): dict(check='exempt', why='address of the dispatcher\'s local instance pointer; unregister '
                                                            'nulls through it (checked by C20 R-C20c and C18 R-C18f)'),
@@ -53,6 +59,14 @@ HOLDERS = {
     ('parent', 'iv_popen_request', 'iv_popen_running_child.parent'): dict(check='exempt', why='popen close detaches the record (C19 R-C19d)'),
 }
 
+# what an array/heap slot holding a pointer to an object of that kind is called in HOLDERS
+SLOT_NAME = {'iv_fd_': 'poll.fds[]', 'iv_timer_': 'heap'}
+FD_SLOT = ('slot', 'iv_fd_', 'poll.fds[]')
+
+N_CALLBACK_FIELDS = 12      # fd in/out/err, task, timer, event, raw event, signal, wait, inotify watch, work, completion
+
+WAIT_PRIMITIVES = {'epoll_wait': 1, 'epoll_pwait2': 1, 'epoll_pwait': 1, 'poll': 0, 'ppoll': 0}   # name -> index of the array argument
+
 
 def is_cb(e):
     k = callback_kind(e)
@@ -60,24 +74,32 @@ def is_cb(e):
 
 
 def objrec(x):
+    """kind of user object the pointer value x designates (a pointer variable, or the
+    iv_container_of / iv_list_entry expression that yields the object), public twins normalised"""
     x = strip(x)
     if isinstance(x, dict) and x.get('k') == 'var' and x.get('ptr') and x.get('record') in USER_OBJECT_RECORDS:
-        return x['record']
+        return norm_rec(x['record'])
+    if isinstance(x, dict) and x.get('k') == 'container_of' and x.get('record') in USER_OBJECT_RECORDS:
+        return norm_rec(x['record'])
     return None
 
 
 def discover_holders(prog):
+    c = getattr(prog, '_c01_holders', None)
+    if c is not None:
+        return c
     found = {}
     for f in sorted(prog.all_funcs(), key=lambda f: f.q):
         for e in f.events():
-            if e['ev'] == 'call' and e.get('callee') in ('iv_list_add', 'iv_list_add_tail', 'iv_avl_tree_insert', '__iv_list_steal_elements'):
+            o = h01.list_op_member(f, e)
+            if o is not None and o[0] == 'add' and o[1] and o[1][0] in USER_OBJECT_RECORDS:
+                found.setdefault(('list', o[1][0], o[1][1]), []).append((f, e))
+            if e['ev'] == 'call' and e.get('callee') in ('iv_avl_tree_insert', '__iv_list_steal_elements'):
                 ai = 1 if e['callee'] == 'iv_avl_tree_insert' else 0
-                a = strip(e['args'][ai])
-                if isinstance(a, dict) and a.get('k') == 'addr':
-                    lm = last_member(a['e'])
-                    if lm and lm[0] in USER_OBJECT_RECORDS:
-                        kind = 'tree' if e['callee'] == 'iv_avl_tree_insert' else 'list'
-                        found.setdefault((kind, lm[0], lm[1]), []).append((f, e))
+                lm = h01.arg_member(f, e, ai)
+                if lm and lm[0] in USER_OBJECT_RECORDS:
+                    kind = 'tree' if e['callee'] == 'iv_avl_tree_insert' else 'list'
+                    found.setdefault((kind, lm[0], lm[1]), []).append((f, e))
             if e['ev'] == 'store' and e.get('op') == '=' and 'rhs' in e:
                 l = strip(e['lhs'])
                 if l.get('k') == 'var':
@@ -91,15 +113,21 @@ def discover_holders(prog):
                     if lm and lm[1] == 'cookie':
                         # X->SUB.cookie = X : the embedded sub-object points back at its container
                         b = strip(l['base']) if l.get('k') == 'member' else None
+                        sub = None
                         if isinstance(b, dict) and b.get('k') == 'member':
-                            found.setdefault(('cookie', rec, b['field']), []).append((f, e))
+                            sub = b['field']
+                        elif isinstance(b, dict) and l.get('arrow'):
+                            lm2 = h01.member_of_ptr(f, b)     # sub = &X->SUB; sub->cookie = X
+                            if lm2 and norm_rec(lm2[0]) == rec:
+                                sub = lm2[1]
+                        if sub is not None:
+                            found.setdefault(('cookie', rec, sub), []).append((f, e))
                             continue
-                    if lm == ('epoll_data', 'ptr') or (lm and lm[1] == 'ptr' and 'data' in canon(e['lhs'])):
+                    if lm == ('epoll_data', 'ptr') or ('epoll_event', 'data') in steps:
                         found.setdefault(('kernel', rec, 'epoll_event.data.ptr'), []).append((f, e))
-                    elif l.get('k') == 'index':
-                        found.setdefault(('slot', rec, 'poll.fds[]'), []).append((f, e))
-                    elif l.get('k') == 'deref':
-                        found.setdefault(('slot', rec, 'heap'), []).append((f, e))
+                    elif l.get('k') in ('index', 'deref'):
+                        # an element of a dynamically allocated array / heap: whatever the spelling (a[i], *(a + i), *p)
+                        found.setdefault(('slot', rec, SLOT_NAME.get(rec, 'array')), []).append((f, e))
                     elif lm and lm[1] == 'parent':
                         found.setdefault(('parent', rec, '%s.%s' % lm), []).append((f, e))
                     elif lm and lm[0] in ('iv_state', 'iv_wait_thr_info'):
@@ -114,11 +142,11 @@ def discover_holders(prog):
                     if isinstance(v, dict) and v.get('k') == 'var' and v.get('record') in USER_OBJECT_RECORDS and v.get('ptr'):
                         lm = last_member(e['lhs'])
                         found.setdefault(('pub', v['record'], lm[1] if lm else canon(e['lhs'])), []).append((f, e))
+    prog._c01_holders = found
     return found
 
 
 def lvalue_root_is_local(lhs):
-    from ..core import lvalue_root
     r = lvalue_root(lhs)
     return r is not None and r.get('vk') in ('local', 'param')
 
@@ -130,25 +158,41 @@ def _list_arg_member(e, i=0):
     return None
 
 
-def link_states(g, rec, field):
-    """May-set of link states {'U','L','N'} of rec.field before every event."""
-    key = (rec, field)
+def _empty_edge(g, blk, si, key):
+    """'empty' / 'nonempty' when the edge decides iv_list_empty() of the list node `key`, else None"""
+    if blk.term and blk.term.get('cond') is not None and len(blk.succ) == 2:
+        for (op, lc, rc, l, r) in norm_cond(blk.term['cond'], si == 0):
+            c = strip(l)
+            if isinstance(c, dict) and c.get('k') == 'call' and c.get('callee') == 'iv_list_empty' and rc == '0' and op in ('==', '!=') \
+                    and c.get('args') and h01.member_of_ptr(g, c['args'][0]) == key:
+                return 'empty' if op == '!=' else 'nonempty'
+    return None
+
+
+def _link_transfer(g, key):
+    """link state of the node `key` (typed: any object of the record): L linked, N not linked, U unknown.
+    (Re)initialising a node does not take it off a list: only iv_list_del* does."""
     def tr(e, S):
-        if is_call(e, ('iv_list_add', 'iv_list_add_tail')) and _list_arg_member(e) == key:
+        o = h01.list_op_member(g, e)
+        if o == ('add', key):
             return frozenset('L')
-        if is_call(e, ('iv_list_del', 'iv_list_del_init', 'INIT_IV_LIST_HEAD')) and _list_arg_member(e) == key:
+        if o == ('del', key):
             return frozenset('N')
         return S
+    return tr
+
+
+def link_states(g, rec, field, cut=frozenset()):
+    """May-set of link states {'U','L','N'} of rec.field before every event."""
+    key = (rec, field)
     def edge(blk, si, S):
-        if blk.term and blk.term.get('cond') is not None and len(blk.succ) == 2:
-            for (op, lc, rc, l, r) in norm_cond(blk.term['cond'], si == 0):
-                c = strip(l)
-                if isinstance(c, dict) and c.get('k') == 'call' and c.get('callee') == 'iv_list_empty' and rc == '0':
-                    a = strip(c['args'][0])
-                    if isinstance(a, dict) and a.get('k') == 'addr' and last_member(a['e']) == key:
-                        return frozenset('N') if op == '!=' else frozenset('L')
+        if (blk.id, si) in cut:
+            return None
+        t = _empty_edge(g, blk, si, key)
+        if t is not None:
+            return frozenset('N') if t == 'empty' else frozenset('L')
         return S
-    _, ev_in = forward(g, frozenset('U'), tr, lambda a, b: a | b, edge=edge)
+    _, ev_in = forward(g, frozenset('U'), _link_transfer(g, key), lambda a, b: a | b, edge=edge)
     return ev_in
 
 
@@ -159,20 +203,58 @@ def exit_points(g):
 
 
 def deferring_tables(prog):
+    """poll methods whose notify_fd slot queues the descriptor (with helpers inlined) instead of telling the kernel at once"""
     out = []
     for t, slots in sorted(prog.method_tables().items()):
         v = slots.get('notify_fd')
         f = prog.resolve(*v) if v else None
-        if f and any(is_call(e, ('iv_list_add', 'iv_list_add_tail')) and _list_arg_member(e) == ('iv_fd_', 'list_notify') for e in f.events()):
+        if f is None:
+            continue
+        g = h01.inlined(prog, f)
+        if any(h01.list_op_member(g, e) == ('add', ('iv_fd_', 'list_notify')) for e in g.events()):
             out.append(t)
+    return out
+
+
+def slot_array_tables(prog, found):
+    """poll methods whose notify_fd slot stores the descriptor into an array slot"""
+    locs = {e['loc'] for (_, e) in found.get(FD_SLOT, [])}
+    out = []
+    for t, slots in sorted(prog.method_tables().items()):
+        v = slots.get('notify_fd')
+        f = prog.resolve(*v) if v else None
+        if f is not None and any(e['ev'] == 'store' and e['loc'] in locs for e in h01.inlined(prog, f).events()):
+            out.append(t)
+    return out
+
+
+def _excludes(op, rc, val):
+    """the atom (x op rc) cannot hold when x == val"""
+    try:
+        n = int(rc)
+    except (TypeError, ValueError):
+        return False
+    tbl = {'==': val == n, '!=': val != n, '<': val < n, '>': val > n, '<=': val <= n, '>=': val >= n}
+    return op in tbl and not tbl[op]
+
+
+def edges_excluding(g, field, val, objs):
+    """conditional edges on which record.field of the object held in one of the locals `objs` cannot be `val`"""
+    out = set()
+    for b, blk in g.blocks.items():
+        if blk.term and blk.term.get('cond') is not None and len(blk.succ) == 2 and blk.term.get('cls') not in ('SwitchStmt', 'MethodDispatch'):
+            for si in (0, 1):
+                for (op, lc, rc_, l, r) in norm_cond(blk.term['cond'], si == 0):
+                    if last_member(l) == field and (h01.base_var_names(l) & objs) and _excludes(op, rc_, val):
+                        out.add((b, si))
     return out
 
 
 def run(ctx):
     ctx.rule('R-C01a', 'stale-after-callback: after a user callback no pointer to a user-owned object is dereferenced '
-                       'until it is reassigned or its liveness marker was re-tested (all dispatchers, helpers inlined)', floor=20)
-    ctx.rule('R-C01b', 'one-shot objects (task, timer, event) are unlinked from the batch (timers: index = -1) in the same '
-                       'iteration before their handler is called', floor=3)
+                       'until it is reassigned or its liveness marker was re-tested (every root of the library, helpers inlined)', floor=20)
+    ctx.rule('R-C01b', 'one-shot objects (task, timer, event) are unlinked from the batch (timers: index = -1) between the definition '
+                       'of the object pointer and the call of their handler, in every calling context', floor=3)
     ctx.rule('R-C01c', 'every place the library keeps a pointer to a user object (lists, trees, markers, poll array, heap '
                        'slot, kernel registration, sub-object cookies) is discovered and undone by that kind\'s unregister on every path', floor=18)
     ctx.rule('R-C01d', 'no user callback runs between the kernel wait and the last read of the event array it filled', floor=4)
@@ -183,16 +265,16 @@ def run(ctx):
 
 
 def stale(ctx):
+    """Judged in every root of the library with its helpers inlined (a helper on its own lacks the marker
+    store or re-test that lives in its caller); a function that no root reaches is judged by itself."""
     prog = ctx.prog
-    nsites = 0
-    for f in sorted(prog.all_funcs(), key=lambda f: f.q):
-        g = Inliner(prog).inline(f)
-        sites = [e for e in g.events() if e['ev'] == 'call' and is_cb(e)]
-        if not sites:
-            continue
-        own = [e for e in f.events() if e['ev'] == 'call' and is_cb(e)]
-        nsites += len(own)
-        reps, objvars, markers = stale_after_callback(g, is_cb)
+    fields = set()
+    for (f, g) in h01.callback_contexts(prog):
+        for e in g.events():
+            if h01.cb_kind(g, e):
+                m = h01.call_target(g, e)
+                fields.add((m.get('record'), m['field']))
+        reps, objvars, markers = stale_after_callback(g, lambda e, g=g: h01.cb_kind(g, e))
         byvar = {}
         for (e, v, acc, cb) in reps:
             byvar.setdefault(v, []).append((e, acc, cb))
@@ -205,61 +287,312 @@ def stale(ctx):
                            % (base, objvars[v], relpath(bad[0][2]), ', '.join(sorted({a for _, a, _ in bad})))) if bad else
                           '%s *%s: never used after a callback site without reassignment / marker test' % (objvars[v], base),
                    path=path_to(g, e0) if e0 else None, fn=f.q)
-    if nsites < 14:
-        raise AnalysisBroken('only %d user callback sites found (14 confirmed by reading)' % nsites)
+    # what must not vanish is the set of handler fields user code is entered through, not the number of call
+    # statements (a trampoline merges sites, an unrolled loop multiplies them)
+    if len(fields) < N_CALLBACK_FIELDS:
+        raise AnalysisBroken('user callbacks through only %d handler fields found (%d confirmed by reading): %s'
+                             % (len(fields), N_CALLBACK_FIELDS, sorted(fields)))
 
 
 def one_shot(ctx):
-    """Since the (last) definition of the object variable whose handler is about
-    to be called, the object has been unlinked (and stamped).  Formulated on the
-    definition rather than on the loop head so that it is independent of the loop
-    form (peeled last iteration, do/while, helper per object)."""
+    """At the call of a one-shot object's handler the object has been unlinked (and stamped) since the
+    (last) definition of the pointer the handler is called through.  Evaluated by a forward must-analysis
+    of facts about locals (h01.oneshot_facts) in every root context that reaches the call, so that it is
+    independent of the loop form, of helpers that dequeue / run one object, of pointer copies and of how
+    the list node is spelled (&t->list, or the node pointer t was computed from)."""
     prog = ctx.prog
-    for f in sorted(prog.all_funcs(), key=lambda f: f.q):
-        sites = {}
-        for cs in [e for e in f.events() if e['ev'] == 'call' and is_cb(e) in ONE_SHOT]:
-            sites.setdefault((is_cb(cs), cs['loc']), []).append(cs)
-        for (kind, loc), css in sorted(sites.items()):
+    stamps = {(x[0], x[1]): int(x[2]) for (_, _, x) in ONE_SHOT.values() if x}
+    res = {}
+    for (f, g) in h01.callback_contexts(prog):
+        sites = [e for e in g.events() if h01.cb_kind(g, e) in ONE_SHOT]
+        if not sites:
+            continue
+        facts = h01.oneshot_facts(g, stamps)
+        for cs in sites:
+            S = facts.get((cs['_b'], cs['_i']))
+            if S is None:
+                continue        # not reachable in this context
+            kind = h01.cb_kind(g, cs)
             rec, link, extra = ONE_SHOT[kind]
-            ok, ok2 = True, True
-            for cs in css:
-                objx = strip(cs['fnexpr'])['base']
-                obj = canon(objx)
-                root = lvalue_root(objx)
-                rootname = root['name'] if root is not None else None
-                def redefined(e, rootname=rootname):
-                    return e['ev'] == 'store' and strip(e['lhs']).get('k') == 'var' and strip(e['lhs'])['name'] == rootname
-                def unlinked(e, obj=obj, rec=rec, link=link):
-                    return is_call(e, ('iv_list_del', 'iv_list_del_init')) and _list_arg_member(e) == (rec, link) \
-                        and canon(e['args'][0]) == '&%s->%s' % (obj, link)
-                def tr(e, s):
-                    if redefined(e):
-                        return False
-                    return True if unlinked(e) else s
-                _, ev_in = forward(f, False, tr, lambda a, b: a and b)
-                ok = ok and bool(ev_in.get((cs['_b'], cs['_i'])))
-                if extra:
-                    def stamped(e, obj=obj, extra=extra):
-                        return e['ev'] == 'store' and last_member(e['lhs']) == (extra[0], extra[1]) \
-                            and canon(strip(e['lhs'])['base']) == obj and canon(e.get('rhs')) == extra[2]
-                    def tr2(e, s):
-                        if redefined(e):
-                            return False
-                        if stamped(e):
-                            return True
-                        if e['ev'] == 'store' and last_member(e['lhs']) == (extra[0], extra[1]) and canon(strip(e['lhs'])['base']) == obj:
-                            return False
-                        return s
-                    _, ev2 = forward(f, False, tr2, lambda a, b: a and b)
-                    ok2 = ok2 and bool(ev2.get((cs['_b'], cs['_i'])))
-            cs = css[0]
-            ctx.ob('R-C01b', '%s:%s-unlinked-before-handler' % (f.name, kind), ok, loc=cs['loc'],
-                   detail='iv_list_del*(&%s->%s) lies between the definition of %s and %s on every path' % (obj, link, obj, describe(cs)),
-                   path=None if ok else path_to(f, cs), fn=f.q)
-            if extra:
-                ctx.ob('R-C01b', '%s:%s-%s-stamped-before-handler' % (f.name, kind, extra[1]), ok2, loc=cs['loc'],
-                       detail='%s->%s = %s precedes the handler call on every path from the definition of %s (the object reads as unregistered inside its handler)'
-                              % (obj, extra[1], extra[2], obj), fn=f.q)
+            fe = h01.call_target(g, cs)
+            objs = h01.var_names(fe['base'])
+            if not objs:
+                raise AnalysisBroken('%s: the object of %s is not held in a local' % (f.name, describe(cs)))
+            ok = any(('unl', o, (rec, link)) in S for o in objs)
+            ok2 = (not extra) or any(('st', o, (extra[0], extra[1])) in S for o in objs)
+            r = res.setdefault((kind, cs['loc']), dict(ok=True, ok2=True, cs=cs, g=g, f=f, bad=None, bad2=None, obj=canon(fe['base']).split('@')[0]))
+            if not ok and r['ok']:
+                r.update(ok=False, bad=(g, cs, f))
+            if not ok2 and r['ok2']:
+                r.update(ok2=False, bad2=(g, cs, f))
+    for (kind, loc), r in sorted(res.items()):
+        rec, link, extra = ONE_SHOT[kind]
+        cs = r['cs']
+        owner = h01.owner_name(cs, r['f'].q)
+        obj = r['obj']
+        bg, bcs, bf = r['bad'] or (r['g'], cs, r['f'])
+        ctx.ob('R-C01b', '%s:%s-unlinked-before-handler' % (owner, kind), r['ok'], loc=loc,
+               detail='iv_list_del*() of the %s.%s node of %s lies between the definition of %s and %s on every path%s'
+                      % (rec, link, obj, obj, describe(cs), '' if r['ok'] else ' [fails in the context of %s]' % bf.name),
+               path=None if r['ok'] else path_to(bg, bcs), fn=bf.q)
+        if extra:
+            bg, bcs, bf = r['bad2'] or (r['g'], cs, r['f'])
+            ctx.ob('R-C01b', '%s:%s-%s-stamped-before-handler' % (owner, kind, extra[1]), r['ok2'], loc=loc,
+                   detail='%s->%s = %s precedes the handler call on every path from the definition of %s (the object reads as unregistered inside its handler)%s'
+                          % (obj, extra[1], extra[2], obj, '' if r['ok2'] else ' [fails in the context of %s]' % bf.name),
+                   path=None if r['ok2'] else path_to(bg, bcs), fn=bf.q)
+
+
+# --------------------------------------------------------------------------
+# R-C01c
+# --------------------------------------------------------------------------
+
+def _check_unlinked(g, un, rec, fld, spec):
+    pts = exit_points(g)
+    key = (rec, fld)
+    if spec.get('when'):
+        wf, wop, wv = spec['when']
+        cut = edges_excluding(g, wf, wv, h01.object_vars(g, un, rec))
+        if not cut:
+            raise AnalysisBroken('%s: discriminating test of %s.%s not found' % (un.name, wf[0], wf[1]))
+        ls = link_states(g, rec, fld, cut=cut)
+        sts = set()
+        for p in pts:
+            sts |= set(ls.get(p, ()))
+        ok = sts <= {'N'} and bool(sts)
+        det = 'on the %s.%s == %s arm the object is unlinked at return (states %s): %s' % (wf[0], wf[1], wv, sorted(sts), spec.get('why', ''))
+    else:
+        ls = link_states(g, rec, fld)
+        sts = set()
+        for p in pts:
+            sts |= set(ls.get(p, ()))
+        ok = sts <= {'N'} and bool(sts)
+        det = 'link state of %s.%s at every return of %s: %s (N = not linked)' % (rec, fld, un.name, sorted(sts))
+    if ok and spec.get('lock'):
+        lk = h01.locks_held(g)
+        for e in g.events():
+            if h01.list_op_member(g, e) == ('del', key):
+                if spec['lock'] not in (lk.get((e['_b'], e['_i'])) or ()):
+                    ok = False
+                    det += '; unlinked without %s' % spec['lock']
+    return ok, det
+
+
+def _check_tree(g, un, rec, fld, spec):
+    pts = exit_points(g)
+    def tr(e, s):
+        return True if (is_call(e, 'iv_avl_tree_delete') and h01.arg_member(g, e, 1) == (rec, fld)) else s
+    def edge(blk, si, s):
+        if spec.get('unless') and blk.term and blk.term.get('cond') is not None and len(blk.succ) == 2:
+            for (op, lc, rc_, l, r) in norm_cond(blk.term['cond'], si == 0):
+                if op == '!=' and rc_ == '0' and spec['unless'] in {(x.get('record'), x.get('field')) for x in walk(l) if x.get('k') == 'member'}:
+                    return True
+        return s
+    _, ev_in = forward(g, False, tr, lambda a, b: a and b, edge=edge)
+    ok = all(ev_in.get(p, True) for p in pts)
+    return ok, 'iv_avl_tree_delete(&obj->%s) on every path%s' % (fld, (' except where ' + spec['why']) if spec.get('why') else '')
+
+
+def _check_marker(g, un, rec, marker, spec):
+    """Postcondition: at every return the marker does not designate the object being unregistered.
+    M = may designate it, N = does not (NULL stored, or tested different / NULL)."""
+    mrec, mfld = marker.split('.')
+    mkey = (mrec, mfld)
+    objs = h01.object_vars(g, un, rec)
+    if not objs:
+        raise AnalysisBroken('%s: no parameter of kind %s' % (un.name, rec))
+    def is_obj(x):
+        return isinstance(x, dict) and bool(h01.var_names(x) & objs)
+    def refine(atoms, S):
+        """marker state under branch atoms: tested NULL or tested different from the object -> N"""
+        for (op, lc, rc_, l, r) in atoms:
+            if op not in ('==', '!='):
+                continue
+            for (a, b) in ((l, r), (r, l)):
+                if not isinstance(a, dict) or last_member(a) != mkey:
+                    continue
+                if isinstance(b, dict) and h01.const_of(b) == 0:
+                    if op == '==':
+                        S = frozenset('N')
+                elif is_obj(b):
+                    if op == '!=':
+                        S = frozenset('N')
+        return S
+    def value(x, S):
+        """marker state after storing x into it"""
+        x = strip(x)
+        if h01.const_of(x) == 0:
+            return frozenset('N')
+        if isinstance(x, dict) and x.get('k') == 'cond':     # marker = (marker == obj) ? NULL : marker
+            return value(x['a'], refine(norm_cond(x['c'], True), S)) | value(x['b'], refine(norm_cond(x['c'], False), S))
+        if isinstance(x, dict) and last_member(x) == mkey:
+            return S                                          # the marker's own value
+        return frozenset('M')
+    def tr(e, S):
+        if e['ev'] == 'store' and last_member(e['lhs']) == mkey:
+            return value(e['rhs'], S) if e.get('op') == '=' and 'rhs' in e else frozenset('M')
+        return S
+    def edge(blk, si, S):
+        if blk.term and blk.term.get('cond') is not None and len(blk.succ) == 2 and blk.term.get('cls') not in ('SwitchStmt', 'MethodDispatch'):
+            S = refine(norm_cond(blk.term['cond'], si == 0), S)
+        return S
+    _, ev_in = forward(g, frozenset('M'), tr, lambda a, b: a | b, edge=edge)
+    sts = set()
+    for p in exit_points(g):
+        sts |= set(ev_in.get(p, ()))
+    ok = bool(sts) and sts <= {'N'}
+    return ok, ('at every return of %s the marker %s cannot designate the object being unregistered (reset to NULL where it '
+                'does): states %s (N = does not)' % (un.name, marker, sorted(sts)))
+
+
+def _index_fixed(g, objs, idxkeys, free, with_edges):
+    """at a point: the index field of the object holds `free` (stored, or tested equal) and nothing that may
+    alias the object stored another value since"""
+    def tr(e, s):
+        if e['ev'] == 'store' and last_member(e['lhs']) in idxkeys:
+            v = h01.const_of(e.get('rhs')) if e.get('op') == '=' else None
+            if h01.base_var_names(e['lhs']) & objs:
+                return v == free
+            return s if v == free else False
+        return s
+    def edge(blk, si, s):
+        if with_edges and blk.term and blk.term.get('cond') is not None and len(blk.succ) == 2:
+            for (op, lc, rc_, l, r) in norm_cond(blk.term['cond'], si == 0):
+                if op == '==' and rc_ == str(free) and last_member(l) in idxkeys and (h01.base_var_names(l) & objs):
+                    return True
+        return s
+    _, ev_in = forward(g, False, tr, lambda a, b: a and b, edge=edge)
+    return ev_in
+
+
+def slot_index_keys(prog, found, sig, rec):
+    """(record, field) of the scalar field(s) of the object from which the address of its array slot is computed
+    (`arr[obj->idx] = obj`), whatever locals cache the index or the slot address"""
+    keys = set()
+    def fld_of_obj(y):
+        """scalar field reached from a pointer variable of the object kind: (record, field)"""
+        if y.get('k') == 'member' and not y.get('trecord'):
+            x = y
+            while isinstance(x, dict) and x.get('k') == 'member' and not x['arrow']:
+                x = strip(x['base'])
+            if isinstance(x, dict) and x.get('k') == 'member':
+                b = strip(x['base'])
+                if isinstance(b, dict) and b.get('k') == 'var' and norm_rec(b.get('record')) == rec:
+                    return (y.get('record'), y['field'])
+        return None
+    for (f, e) in found.get(sig, []):
+        l = strip(e['lhs'])
+        addr = [l['base'], l['idx']] if l.get('k') == 'index' else [l['e']]
+        seen = set()
+        def pred(y):
+            k = fld_of_obj(y)
+            if k:
+                keys.add(k)
+            return False
+        h01.depends_on(f, addr, pred, seen)
+        seen |= {y['name'] for y in walk(addr) if h01.is_localvar(y)}
+        # idx = n++; obj->index = idx; arr[idx] = obj : the local the slot is addressed by is what the object remembers
+        for e2 in f.events():
+            if e2['ev'] == 'store' and e2.get('op') == '=' and 'rhs' in e2 and (h01.var_names(e2['rhs']) & seen):
+                k = fld_of_obj(strip(e2['lhs'])) if isinstance(strip(e2['lhs']), dict) else None
+                if k:
+                    keys.add(k)
+    return keys
+
+
+def _check_poll_slot(g, un, rec, spec, idxkeys):
+    objs = h01.object_vars(g, un, rec)
+    if not objs:
+        raise AnalysisBroken('%s: no parameter of kind %s' % (un.name, rec))
+    ev_in = _index_fixed(g, objs, idxkeys, spec['free'], True)
+    ok = all(ev_in.get(p, True) for p in exit_points(g))
+    return ok, 'at every return the descriptor has no slot in the poll arrays (%s == %d stored or tested)' % (
+        '/'.join(sorted(k[1] for k in idxkeys)), spec['free'])
+
+
+def _check_heap_slot(g, un, rec, spec):
+    objs = h01.object_vars(g, un, rec)
+    if not objs:
+        raise AnalysisBroken('%s: no parameter of kind %s' % (un.name, rec))
+    idx = spec['index']
+    pts = exit_points(g)
+    ev_in = _index_fixed(g, objs, {idx}, spec['free'], False)
+    ok1 = all(ev_in.get(p, True) for p in pts)
+    # on the arm where the timer is on the heap: every path overwrites a heap slot with something that is not the
+    # timer, and the slot addressed through the timer's own index is among the slots overwritten
+    def own_index(y):
+        return y.get('k') == 'member' and (y.get('record'), y['field']) == idx and bool(h01.base_var_names(y) & objs)
+    def slot_store(e):
+        if e['ev'] != 'store' or e.get('op') != '=':
+            return None
+        l = strip(e['lhs'])
+        if not isinstance(l, dict) or l.get('k') not in ('deref', 'index') or lvalue_steps(e['lhs']):
+            return None
+        if h01.var_names(e.get('rhs')) & objs:
+            return None
+        return [l['base'], l['idx']] if l['k'] == 'index' else [l['e']]
+    own = {id(e) for e in g.events() if slot_store(e) is not None and h01.depends_on(g, slot_store(e), own_index)}
+    arms = edges_excluding(g, idx, spec['batch'], objs)
+    ok2, ok3, narm = True, True, 0
+    for (b, si) in sorted(arms):
+        mp = must_pass_from_block(g, g.blocks[b].succ[si], lambda e: slot_store(e) is not None)
+        reach = [p for p in pts if p in mp]
+        if reach:
+            narm += 1
+            if not all(mp[p] for p in reach):
+                ok2 = False
+            seen = g.reachable_blocks(g.blocks[b].succ[si])
+            if not any(id(e) in own for bb in seen for e in g.blocks[bb].events):
+                ok3 = False
+    if not narm:
+        raise AnalysisBroken('%s: arm for a timer that is on the heap (%s.%s != %d) not found' % (un.name, idx[0], idx[1], spec['batch']))
+    return ok1 and ok2 and ok3, ('heap arm: a heap slot is overwritten on every path (%s), the slot addressed by the timer\'s own index is '
+                                 'among them (%s); %s = %d at every return (%s)'
+                                 % ('yes' if ok2 else 'NO', 'yes' if ok3 else 'NO', idx[1], spec['free'], 'yes' if ok1 else 'NO'))
+
+
+def _check_epoll_sync(g, un, prog, t):
+    key = ('iv_fd_', 'list_notify')
+    pts = exit_points(g)
+    def tr(e, S):
+        if is_call(e, 'epoll_ctl'):
+            return frozenset((True, l_) for (_, l_) in S)
+        o = h01.list_op_member(g, e)
+        if o == ('add', key):
+            return frozenset((s_, 'L') for (s_, _) in S)
+        if o == ('del', key):
+            return frozenset((s_, 'N') for (s_, _) in S)
+        return S
+    def edge(blk, si, S):
+        if blk.term and blk.term.get('cond') is not None and len(blk.succ) == 2:
+            for (op, lc, rc_, l, r) in norm_cond(blk.term['cond'], si == 0):
+                if op == '==' and {last_member(l), last_member(r)} == {('iv_fd_', 'registered_bands'), ('iv_fd_', 'wanted_bands')}:
+                    S = frozenset((True, l_) for (_, l_) in S)
+            st = _empty_edge(g, blk, si, key)
+            if st == 'empty':      # impossible when certainly linked
+                S = frozenset((s_, 'N') for (s_, l_) in S if l_ != 'L')
+            elif st == 'nonempty':
+                S = frozenset((s_, 'L') for (s_, l_) in S if l_ != 'N')
+        return S if S else None
+    _, ev_in = forward(g, frozenset([(False, 'U')]), tr, lambda a, b: a | b, edge=edge)
+    sts = set()
+    for p in pts:
+        sts |= set(ev_in.get(p, ()))
+    ok = bool(sts) and all(s_ for (s_, l_) in sts)
+    slots = prog.method_tables()[t]
+    ok = ok and bool(slots.get('unregister_fd'))
+    return ok, ('unregister synchronously updates the kernel registration (epoll_ctl) unless nothing differs from what the '
+                'kernel has; exit states (synced, linked): %s' % sorted(sts))
+
+
+def _check_sub(g, un, rec, fld, spec):
+    def tr(e, s):
+        if is_call(e, spec['sub']) and h01.arg_member(g, e) == (rec, fld):
+            return True
+        return s
+    _, ev_in = forward(g, False, tr, lambda a, b: a and b)
+    ok = all(ev_in.get(p, True) for p in exit_points(g))
+    return ok, '%s(&obj->%s) on every path of %s' % (spec['sub'], fld, un.name)
 
 
 def holders(ctx):
@@ -286,226 +619,97 @@ def holders(ctx):
             if not tables:
                 raise AnalysisBroken('no poll method defers notifications')
         elif spec.get('methods') == 'poll':
-            tables = [t for t, s in sorted(prog.method_tables().items()) if s.get('register_fd') and not s.get('unregister_fd')]
+            tables = slot_array_tables(prog, found)
             if not tables:
                 raise AnalysisBroken('no poll-array method found')
         else:
             tables = [None]
+        idxkeys = None
+        if spec['check'] == 'poll-slot':
+            idxkeys = slot_index_keys(prog, found, sig, rec)
+            if not idxkeys:
+                raise AnalysisBroken('index field of the %s array slot not found' % rec)
         for t in tables:
-            g = Inliner(prog, method_table=t, expand_methods=True, prune=True).inline(un)
+            g = h01.inlined(prog, un, method_table=t, expand_methods=True, prune=True)
             tag = (' [%s]' % t.replace('iv_fd_poll_method_', '')) if t else ''
-            pts = exit_points(g)
-            ok, det = True, ''
             if spec['check'] == 'unlinked':
-                ls = link_states(g, rec, sig[2])
-                if spec.get('when'):
-                    res = delta_analysis(g, [], discr=[spec['when'][0]])
-                    # exits whose path took the discriminated arm
-                    armpts = set()
-                    for (e, d, rc, preds) in res.rets:
-                        if tuple(spec['when']) in preds and e is not None:
-                            armpts.add((e['_b'], e['_i']))
-                    for (d, envk, preds) in res.exit_states:
-                        if tuple(spec['when']) in preds:
-                            armpts.add((g.exit, 0))
-                    # per-arm link state: re-run restricted to the arm by cutting the other edge
-                    ok = True
-                    cut = set()
-                    for b, blk in g.blocks.items():
-                        if blk.term and blk.term.get('cond') is not None and len(blk.succ) == 2:
-                            for si in (0, 1):
-                                for (op, lc, rc_, l, r) in norm_cond(blk.term['cond'], si == 0):
-                                    if last_member(l) == spec['when'][0] and ((op == '!=' and rc_ == str(spec['when'][2]) and spec['when'][1] == '==')):
-                                        cut.add((b, si))
-                    if not cut:
-                        raise AnalysisBroken('%s: discriminating test of %s.%s not found' % (un.name, spec['when'][0][0], spec['when'][0][1]))
-                    # states reaching exit without taking a cut edge
-                    key = (rec, sig[2])
-                    def tr(e, S, key=key):
-                        if is_call(e, ('iv_list_add', 'iv_list_add_tail')) and _list_arg_member(e) == key:
-                            return frozenset('L')
-                        if is_call(e, ('iv_list_del', 'iv_list_del_init', 'INIT_IV_LIST_HEAD')) and _list_arg_member(e) == key:
-                            return frozenset('N')
-                        return S
-                    def edge(blk, si, S, cut=cut):
-                        return None if (blk.id, si) in cut else S
-                    _, ev_in = forward(g, frozenset('U'), tr, lambda a, b: a | b, edge=edge)
-                    sts = set()
-                    for p in pts:
-                        sts |= set(ev_in.get(p, ()))
-                    ok = sts <= {'N'} and bool(sts)
-                    det = 'on the %s.%s == %s arm the object is unlinked at return (states %s): %s' % (
-                        spec['when'][0][0], spec['when'][0][1], spec['when'][2], sorted(sts), spec.get('why', ''))
-                else:
-                    sts = set()
-                    for p in pts:
-                        sts |= set(ls.get(p, ()))
-                    ok = sts <= {'N'} and bool(sts)
-                    det = 'link state of %s.%s at every return of %s: %s (N = not linked)' % (rec, sig[2], un.name, sorted(sts))
-                if ok and spec.get('lock'):
-                    lk = locksets(g)
-                    for e in g.events():
-                        if is_call(e, ('iv_list_del', 'iv_list_del_init')) and _list_arg_member(e) == (rec, sig[2]):
-                            if spec['lock'] not in held(lk.get((e['_b'], e['_i']))):
-                                ok = False
-                                det += '; unlinked without %s' % spec['lock']
+                ok, det = _check_unlinked(g, un, rec, sig[2], spec)
             elif spec['check'] == 'tree':
-                def deleted(e, rec=rec, fld=sig[2]):
-                    return is_call(e, 'iv_avl_tree_delete') and _list_arg_member(e, 1) == (rec, fld)
-                def tr(e, s):
-                    return True if deleted(e) else s
-                def edge(blk, si, s, spec=spec):
-                    if spec.get('unless') and blk.term and blk.term.get('cond') is not None and len(blk.succ) == 2:
-                        for (op, lc, rc_, l, r) in norm_cond(blk.term['cond'], si == 0):
-                            if op == '!=' and rc_ == '0' and spec['unless'] in {(x.get('record'), x.get('field')) for x in walk(l) if x.get('k') == 'member'}:
-                                return True
-                    return s
-                _, ev_in = forward(g, False, tr, lambda a, b: a and b, edge=edge)
-                ok = all(ev_in.get(p, True) for p in pts)
-                det = 'iv_avl_tree_delete(&obj->%s) on every path%s' % (sig[2], (' except where ' + spec['why']) if spec.get('why') else '')
+                ok, det = _check_tree(g, un, rec, sig[2], spec)
             elif spec['check'] == 'marker':
-                mrec, mfld = sig[2].split('.')
-                clears = [e for e in g.events() if e['ev'] == 'store' and last_member(e['lhs']) == (mrec, mfld) and canon(e.get('rhs')) in ('NULL', '0')]
-                hd = holding(g)
-                ok = False
-                for e in clears:
-                    A = hd.get((e['_b'], e['_i']), frozenset())
-                    if any(a[0] == '==' and (mrec, mfld) in a[3] and a[2] not in ('0',) for a in A):
-                        ok = True
-                # and on the marker == obj edge the clear is always reached
-                det = '%s is reset to NULL on the edge where it designates the object being unregistered' % sig[2]
-                if ok:
-                    from ..analyses import must_pass_from_block
-                    for b, blk in g.blocks.items():
-                        if blk.term and blk.term.get('cond') is not None and len(blk.succ) == 2:
-                            for si in (0, 1):
-                                for (op, lc, rc_, l, r) in norm_cond(blk.term['cond'], si == 0):
-                                    if op == '==' and last_member(l) == (mrec, mfld) and rc_ != '0':
-                                        mp = must_pass_from_block(g, blk.succ[si], lambda e: e in clears)
-                                        if not all(mp.get(p, True) for p in pts):
-                                            ok = False
+                ok, det = _check_marker(g, un, rec, sig[2], spec)
             elif spec['check'] == 'poll-slot':
-                def tr(e, s):
-                    if e['ev'] == 'store' and canon(e['lhs']).endswith('->u.index') and last_member(e['lhs'])[1] == 'index':
-                        return canon(e.get('rhs')) == '-1'
-                    return s
-                def edge(blk, si, s):
-                    if blk.term and blk.term.get('cond') is not None and len(blk.succ) == 2:
-                        for (op, lc, rc_, l, r) in norm_cond(blk.term['cond'], si == 0):
-                            if op == '==' and rc_ == '-1' and lc.endswith('->u.index'):
-                                return True
-                    return s
-                _, ev_in = forward(g, False, tr, lambda a, b: a and b, edge=edge)
-                ok = all(ev_in.get(p, True) for p in pts)
-                det = 'at every return the descriptor has no slot in the poll arrays (index == -1 stored or tested)'
+                ok, det = _check_poll_slot(g, un, rec, spec, idxkeys)
             elif spec['check'] == 'heap-slot':
-                # on the heap arm the slot of the timer is overwritten and index = -1 at exit
-                def tr(e, s):
-                    if e['ev'] == 'store' and last_member(e['lhs']) == ('iv_timer_', 'index') and not e.get('chain'):
-                        return canon(e.get('rhs')) == '-1'
-                    return s
-                _, ev_in = forward(g, False, tr, lambda a, b: a and b)
-                ok1 = all(ev_in.get(p, True) for p in pts)
-                slotstores = [e for e in g.events() if e['ev'] == 'store' and strip(e['lhs']).get('k') == 'deref' and not e.get('chain')
-                              and strip(strip(e['lhs'])['e']).get('k') == 'var']
-                # the slot pointer comes from the accessor called with the timer's own index
-                ok2 = False
-                for e in slotstores:
-                    pv = strip(strip(e['lhs'])['e'])['name']
-                    for d in g.events():
-                        if d['ev'] == 'store' and canon(d['lhs']) == pv and not d.get('chain'):
-                            rr = strip(d.get('rhs'))
-                            if isinstance(rr, dict) and rr.get('k') in ('call', 'var'):
-                                # either the direct call or its inlined return temporary
-                                ok2 = True
-                ok = ok1 and ok2
-                det = 'heap arm overwrites the timer\'s slot; index = -1 at every return'
+                ok, det = _check_heap_slot(g, un, rec, spec)
             elif spec['check'] == 'epoll-sync':
-                key = ('iv_fd_', 'list_notify')
-                def tr(e, S, key=key):
-                    if is_call(e, 'epoll_ctl'):
-                        return frozenset((True, l_) for (_, l_) in S)
-                    if is_call(e, ('iv_list_add', 'iv_list_add_tail')) and _list_arg_member(e) == key:
-                        return frozenset((s_, 'L') for (s_, _) in S)
-                    if is_call(e, ('iv_list_del', 'iv_list_del_init', 'INIT_IV_LIST_HEAD')) and _list_arg_member(e) == key:
-                        return frozenset((s_, 'N') for (s_, _) in S)
-                    return S
-                def edge(blk, si, S, key=key):
-                    if blk.term and blk.term.get('cond') is not None and len(blk.succ) == 2:
-                        for (op, lc, rc_, l, r) in norm_cond(blk.term['cond'], si == 0):
-                            if op == '==' and {last_member(l), last_member(r)} == {('iv_fd_', 'registered_bands'), ('iv_fd_', 'wanted_bands')}:
-                                S = frozenset((True, l_) for (_, l_) in S)
-                            c = strip(l)
-                            if isinstance(c, dict) and c.get('k') == 'call' and c.get('callee') == 'iv_list_empty' and rc_ == '0':
-                                a = strip(c['args'][0])
-                                if isinstance(a, dict) and a.get('k') == 'addr' and last_member(a['e']) == key:
-                                    if op == '!=':      # empty: impossible when certainly linked
-                                        S = frozenset((s_, 'N') for (s_, l_) in S if l_ != 'L')
-                                    else:
-                                        S = frozenset((s_, 'L') for (s_, l_) in S if l_ != 'N')
-                    return S if S else None
-                _, ev_in = forward(g, frozenset([(False, 'U')]), tr, lambda a, b: a | b, edge=edge)
-                sts = set()
-                for p in pts:
-                    sts |= set(ev_in.get(p, ()))
-                ok = bool(sts) and all(s_ for (s_, l_) in sts)
-                slots = prog.method_tables()[t]
-                ok = ok and bool(slots.get('unregister_fd'))
-                det = ('unregister synchronously updates the kernel registration (epoll_ctl) unless nothing differs from what the '
-                       'kernel has; exit states (synced, linked): %s' % sorted(sts))
+                ok, det = _check_epoll_sync(g, un, prog, t)
             elif spec['check'] == 'sub':
-                def tr(e, s, sub=spec['sub'], fld=sig[2]):
-                    if is_call(e, sub) and _list_arg_member(e) is not None and _list_arg_member(e)[1] == fld:
-                        return True
-                    return s
-                _, ev_in = forward(g, False, tr, lambda a, b: a and b)
-                ok = all(ev_in.get(p, True) for p in pts)
-                det = '%s(&obj->%s) on every path of %s' % (spec['sub'], sig[2], un.name)
+                ok, det = _check_sub(g, un, rec, sig[2], spec)
+            else:
+                raise AnalysisBroken('unknown holder check %s' % spec['check'])
             ctx.ob('R-C01c', inst + tag, ok, loc=un.loc, detail=det, fn=un.q)
 
 
+# --------------------------------------------------------------------------
+# R-C01d
+# --------------------------------------------------------------------------
+
 def batch_live(ctx):
-    """R-C01d: in every poll slot, after the first user callback no element of
-    the array the kernel filled is read."""
+    """R-C01d: in every poll slot, after the first user callback no element of the array the kernel filled
+    (nor of the descriptor array that parallels it) is read.  The arrays are identified by what they are:
+    the memory block whose address is passed to the wait primitive, the array whose slots hold descriptor
+    pointers; every local or field that may hold a pointer into them (h01.pointer_closure) reads them."""
     prog = ctx.prog
+    found = discover_holders(prog)
+    slot_seeds = set()
+    for (f, e) in found.get(FD_SLOT, []):
+        l = strip(e['lhs'])
+        p = l['base'] if l.get('k') == 'index' else l['e']
+        slot_seeds |= {d for d in h01.pointer_closure(f, h01.designators(p)) if d[0] == 'fld'}
     for t, slots in sorted(prog.method_tables().items()):
+        if not slots.get('poll'):
+            raise AnalysisBroken('%s: no poll slot' % t)
         f = prog.resolve(*slots['poll'])
-        g = Inliner(prog, method_table=t, expand_methods=True).inline(f)
-        waits = [e for e in g.events() if is_call(e, ('epoll_wait', 'epoll_pwait2', 'poll', 'ppoll'))]
+        g = h01.inlined(prog, f, method_table=t, expand_methods=True)
+        waits = [e for e in g.events() if is_call(e, tuple(WAIT_PRIMITIVES)) and e['ev'] == 'call']
         if not waits:
             raise AnalysisBroken('%s: wait primitive not found' % f.name)
-        arrays = set()
+        seeds = set(slot_seeds)
         for w in waits:
-            a = strip(w['args'][1] if w['callee'].startswith('epoll') else w['args'][0])
-            arrays.add(canon(a))
-        # resolve parameter copies: names of variables that are copies of array arguments
+            a = w['args'][WAIT_PRIMITIVES[w['callee']]]
+            d = h01.designators(a)
+            if not d:
+                raise AnalysisBroken('%s: array argument of %s not understood (%s)' % (f.name, w['callee'], canon(a)))
+            seeds |= d
+        T = h01.pointer_closure(g, seeds)
         def tr(e, s):
-            if e['ev'] == 'call' and is_cb(e):
+            if h01.cb_kind(g, e):
                 return e.get('loc')
             return s
         _, ev_in = forward(g, '', tr, lambda a, b: a or b)
         bad = []
         nreads = 0
         for b, blk in g.blocks.items():
+            pts = []
             for i, e in enumerate(blk.events):
-                if e['ev'] != 'load':
-                    continue
-                x = strip_load(e['e'])
-                isarr = False
-                for y in walk(x):
-                    if y.get('k') == 'index' and (canon(y['base']) in arrays or canon(strip_load(y['base'])) in arrays
-                                                  or last_member(strip_load(y['base'])) in ((None, 'fds'), (None, 'pfds'))
-                                                  or (last_member(strip_load(y['base'])) or ('', ''))[1] in ('fds', 'pfds')):
-                        isarr = True
-                if not isarr:
+                if e['ev'] == 'load':
+                    pts.append((i, e, [e['e']]))
+                else:
+                    pts.append((i, e, [e[k] for k in ('rhs', 'args', 'fnexpr', 'value') if k in e]))
+            if blk.term and blk.term.get('cond') is not None:
+                pts.append((len(blk.events), dict(ev='load', e=blk.term['cond'], loc=blk.term.get('loc'), _b=b, _i=max(len(blk.events) - 1, 0)),
+                            [blk.term['cond']]))
+            for (i, e, xs) in pts:
+                if not xs or not h01.reads_block(xs, T):
                     continue
                 nreads += 1
                 if ev_in.get((b, i)):
-                    bad.append((e, ev_in[(b, i)]))
+                    bad.append((e, ev_in[(b, i)], xs))
         if nreads == 0:
             raise AnalysisBroken('%s: no read of the kernel-filled array found' % f.name)
         e0 = bad[0][0] if bad else None
         ctx.ob('R-C01d', '%s:%s' % (t.replace('iv_fd_poll_method_', ''), f.name), not bad, loc=e0['loc'] if e0 else f.loc,
-               detail=('%s is read after the user callback at %s' % (canon(e0['e']), relpath(bad[0][1]))) if bad else
+               detail=('%s is read after the user callback at %s' % (canon(bad[0][2][0]) if isinstance(bad[0][2][0], dict) else describe(e0), relpath(bad[0][1]))) if bad else
                       '%d reads of the kernel-filled array, none after a user callback' % nreads,
                path=path_to(g, e0) if e0 else None, fn=f.q)
